@@ -44,9 +44,10 @@ Proof.
   unfold both_defined, vmaskw, vmask, visna. destruct (lim sd f x), (lim sd g x); split; reflexivity.
 Qed.
 
-(* cov is mean(f'g') - mean(f') mean(g') with every mean taken over the window (definitional unfolding) *)
-Theorem cov_formula (f' g' : stairsQ) lo hi :
-  cov_masked f' g' lo hi =
+(* the property's formula, mean(f'g') - mean(f') mean(g') with every mean taken over the window (definitional unfolding);
+   that the centred form the code computes equals it over finite windows: Proofs/CovCentredFacts.v *)
+Theorem cov_spec_formula (f' g' : stairsQ) lo hi :
+  cov_masked_spec f' g' lo hi =
   lift_res (binop_api (BArith OMul) (OpS f') (OpS g')) (fun fg =>
   lift_res (clipped_mean fg lo hi) (fun mfg =>
   lift_res (clipped_mean f' lo hi) (fun mf =>
@@ -128,6 +129,20 @@ Proof.
   split; [reflexivity|]. split; repeat split; assumption.
 Qed.
 
+Lemma minimal_const (c : V) (sd : side) : minimal (@const Qc c sd).
+Proof. unfold minimal, const. cbn. exact I. Qed.
+
+(* f - c for a scalar c: well-formed, minimal, pointwise *)
+Lemma sub_const_spec (f r : stairsQ) (c : V) : wf f -> minimal f ->
+  binop_api (BArith OSub) (OpS f) (OpC c) = Ok r ->
+  wf r /\ minimal r /\ forall sd x, lim sd r x = vsub (lim sd f x) c.
+Proof.
+  intros Wf Mf E. destruct (binop_api_ok (BArith OSub) (OpS f) (OpC c) r Wf I E) as [Wr Lr].
+  split; [exact Wr|]. split.
+  - unfold binop_api in E. injection E as <-. apply (apply_binop_minimal (BArith OSub) f (const c (closed f))); auto using wf_const, minimal_const.
+  - intros sd x. rewrite Lr. reflexivity.
+Qed.
+
 Lemma cov_masked_symmetric (f1 g1 f2 g2 : stairsQ) lo hi (v v' : V) :
   wf f1 -> wf f2 -> minimal f1 -> minimal f2 -> init f1 = init f2 -> get_values f1 = get_values f2 ->
   wf g1 -> wf g2 -> minimal g1 -> minimal g2 -> init g1 = init g2 -> get_values g1 = get_values g2 ->
@@ -136,29 +151,37 @@ Proof.
   intros Wf1 Wf2 Mf1 Mf2 Fi Fv Wg1 Wg2 Mg1 Mg2 Gi Gv. unfold cov_masked.
   assert (LF : forall sd x, lim sd f1 x = lim sd f2 x) by (intros sd x; unfold lim; rewrite Fi, Fv; reflexivity).
   assert (LG : forall sd x, lim sd g1 x = lim sd g2 x) by (intros sd x; unfold lim; rewrite Gi, Gv; reflexivity).
-  destruct (binop_api (BArith OMul) (OpS f1) (OpS g1)) as [p1|e] eqn:Ep1; [|discriminate]. cbn [lift_res].
-  destruct (binop_api (BArith OMul) (OpS g2) (OpS f2)) as [p2|e] eqn:Ep2; [|intros _; discriminate]. cbn [lift_res].
-  destruct (binop_api_ok (BArith OMul) (OpS f1) (OpS g1) p1 Wf1 Wg1 Ep1) as [Wp1 Lp1].
-  destruct (binop_api_ok (BArith OMul) (OpS g2) (OpS f2) p2 Wg2 Wf2 Ep2) as [Wp2 Lp2].
-  assert (Mp1 : minimal p1).
-  { rewrite (binop_api_stairs _ _ _ _ Ep1). apply (proj1 (all_minimal f1 g1 Wf1 Wg1 Mf1 Mg1)). }
-  assert (Mp2 : minimal p2).
-  { rewrite (binop_api_stairs _ _ _ _ Ep2). apply (proj1 (all_minimal g2 f2 Wg2 Wf2 Mg2 Mf2)). }
-  assert (LP : forall sd x, lim sd p1 x = lim sd p2 x).
-  { intros sd x. rewrite Lp1, Lp2. cbn [olim vbin varith]. rewrite LF, LG. apply vmul_comm. }
-  destruct (canonical 0 p1 p2 Wp1 Wp2 Mp1 Mp2 LP) as [Pi Pv].
-  rewrite (clipped_mean_canonical p1 p2 lo hi Pi Pv), (clipped_mean_canonical f1 f2 lo hi Fi Fv),
-          (clipped_mean_canonical g1 g2 lo hi Gi Gv).
-  destruct (clipped_mean p2 lo hi) as [mp|e]; [|discriminate]. cbn [lift_res].
+  rewrite (clipped_mean_canonical f1 f2 lo hi Fi Fv), (clipped_mean_canonical g1 g2 lo hi Gi Gv).
   destruct (clipped_mean f2 lo hi) as [mf|e]; [|discriminate]. cbn [lift_res].
   destruct (clipped_mean g2 lo hi) as [mg|e]; [|discriminate]. cbn [lift_res].
-  intros E1 E2. injection E1 as <-. injection E2 as <-. rewrite (vmul_comm mf mg). reflexivity.
+  destruct (binop_api (BArith OSub) (OpS f1) (OpC mf)) as [fc1|e] eqn:Efc1; [|discriminate]. cbn [lift_res].
+  destruct (binop_api (BArith OSub) (OpS g1) (OpC mg)) as [gc1|e] eqn:Egc1; [|discriminate]. cbn [lift_res].
+  destruct (binop_api (BArith OSub) (OpS g2) (OpC mg)) as [gc2|e] eqn:Egc2; [|intros _; discriminate]. cbn [lift_res].
+  destruct (binop_api (BArith OSub) (OpS f2) (OpC mf)) as [fc2|e] eqn:Efc2; [|intros _; discriminate]. cbn [lift_res].
+  destruct (sub_const_spec f1 fc1 mf Wf1 Mf1 Efc1) as (Wfc1 & Mfc1 & Lfc1).
+  destruct (sub_const_spec f2 fc2 mf Wf2 Mf2 Efc2) as (Wfc2 & Mfc2 & Lfc2).
+  destruct (sub_const_spec g1 gc1 mg Wg1 Mg1 Egc1) as (Wgc1 & Mgc1 & Lgc1).
+  destruct (sub_const_spec g2 gc2 mg Wg2 Mg2 Egc2) as (Wgc2 & Mgc2 & Lgc2).
+  destruct (binop_api (BArith OMul) (OpS fc1) (OpS gc1)) as [p1|e] eqn:Ep1; [|discriminate]. cbn [lift_res].
+  destruct (binop_api (BArith OMul) (OpS gc2) (OpS fc2)) as [p2|e] eqn:Ep2; [|intros _; discriminate]. cbn [lift_res].
+  destruct (binop_api_ok (BArith OMul) (OpS fc1) (OpS gc1) p1 Wfc1 Wgc1 Ep1) as [Wp1 Lp1].
+  destruct (binop_api_ok (BArith OMul) (OpS gc2) (OpS fc2) p2 Wgc2 Wfc2 Ep2) as [Wp2 Lp2].
+  assert (Mp1 : minimal p1).
+  { rewrite (binop_api_stairs _ _ _ _ Ep1). apply (proj1 (all_minimal fc1 gc1 Wfc1 Wgc1 Mfc1 Mgc1)). }
+  assert (Mp2 : minimal p2).
+  { rewrite (binop_api_stairs _ _ _ _ Ep2). apply (proj1 (all_minimal gc2 fc2 Wgc2 Wfc2 Mgc2 Mfc2)). }
+  assert (LP : forall sd x, lim sd p1 x = lim sd p2 x).
+  { intros sd x. rewrite Lp1, Lp2. cbn [olim vbin varith]. rewrite Lfc1, Lfc2, Lgc1, Lgc2, LF, LG. apply vmul_comm. }
+  destruct (canonical 0 p1 p2 Wp1 Wp2 Mp1 Mp2 LP) as [Pi Pv].
+  rewrite (clipped_mean_canonical p1 p2 lo hi Pi Pv).
+  intros E1 E2. congruence.
 Qed.
 
 Theorem cov_symmetric (f g : stairsQ) lo hi lc (v v' : V) : wf f -> wf g -> minimal f -> minimal g ->
   cov f g lo hi 0 lc = Ok v -> cov g f lo hi 0 lc = Ok v' -> v = v'.
 Proof.
-  intros Wf Wg Mf Mg. unfold cov.
+  intros Wf Wg Mf Mg. unfold cov. change (Qceqb 0 0) with true. cbv iota.
+  destruct (negb (closed_ok f g)); [discriminate|]. destruct (negb (closed_ok g f)); [intros _; discriminate|].
   destruct (cov_operands f g lo hi 0 lc) as [[[f1 g1] h1]|e] eqn:E1; [|discriminate]. cbn [lift_res].
   destruct (cov_operands g f lo hi 0 lc) as [[[g2 f2] h2]|e] eqn:E2; [|intros _; discriminate]. cbn [lift_res].
   destruct (operands_symmetric f g lo hi lc f1 g1 h1 g2 f2 h2 Wf Wg Mf Mg E1 E2)
